@@ -164,6 +164,61 @@ def reachedOneSteps (F : Fns) (τ ε : Rat) (g : GState) (s : St) : Res Bool :=
       | _, _ => true
     .ok (r1 && r2 && r3 && r4)
 
+/-! ### what `GoalRegion(state_list)` admits as a goal state (`_validate_goal_state`, goal.py:157-197; `state_list` setter, 67-71) -/
+
+/-- The class of an attribute value, as far as `_validate_goal_state` distinguishes (`AngleInterval` is a subclass of `Interval`). -/
+inductive Cls where
+  | interval | angleInterval | shape | other
+  deriving DecidableEq, Repr
+
+/-- A state as handed to `GoalRegion`: attribute name ↦ `None` or the class of the value (absent names: `AttributeError`). -/
+abbrev RawG := List (Fld × Option Cls)
+
+/-- `isinstance(v, C)` for a value of class `c` (`None` is an instance of none of them). -/
+def isInst : Option Cls → Cls → Bool
+  | some .angleInterval, .interval => true
+  | some c, d => c == d
+  | none, _ => false
+
+/-- `state.used_attributes`: the names whose value is not `None`, in attribute order. -/
+def RawG.used (st : RawG) : List Fld := st.filterMap (fun x => if x.2.isSome then some x.1 else none)
+
+/-- `valid_fields` (goal.py:171). -/
+def validFields : List Fld := [Fld.time_step, Fld.position, Fld.velocity, Fld.orientation]
+
+/-- the class `_validate_goal_state` requires of attribute `f`. -/
+def requiredCls : Fld → Cls
+  | .position => .shape
+  | .orientation => .angleInterval
+  | _ => .interval
+
+/-- the loop over `used_attributes` (first offending attribute raises `ValueError`). -/
+def validateLoop (st : RawG) : List Fld → Res Unit
+  | [] => .ok ()
+  | f :: rest =>
+    if !validFields.contains f then .error .value else
+    match st.lookup f with
+    | none => .error .attr
+    | some c => if isInst c (requiredCls f) then validateLoop st rest else .error .value
+
+/-- `_validate_goal_state(state)`. -/
+def validateGoalState (st : RawG) : Res Unit :=
+  match st.lookup Fld.time_step with
+  | none => .error .attr
+  | some none => .error .value
+  | some (some _) => validateLoop st st.used
+
+/-- the loop of the `state_list` setter: every state is validated in order (the first failure is raised). -/
+def validateAll : List RawG → Res Unit
+  | [] => .ok ()
+  | st :: rest =>
+    match validateGoalState st with
+    | .error e => .error e
+    | .ok () => validateAll rest
+
+/-- `GoalRegion.state_list = l`: validate all, then store the list. -/
+def setStateList (l : List RawG) : Res (List RawG) := (validateAll l).map (fun _ => l)
+
 /-! ### `GoalRegion.translate_rotate(t, 0)` (goal.py:123-131 → `State.translate_rotate`, state.py:259-301)
 
   A pure translation (angle 0: `cos = 1.0`, `sin = 0.0`, exact) moves every goal position by `t` and leaves the time,
